@@ -130,6 +130,10 @@ class PairOracle(object):
         self.verdict = {}    # (lk, rk) -> MUST/MAY/NOT
         self.scores = {}     # (lk, rk) -> list of accepted scores | 'nan' | None (any)
         self.kind = {}       # (lk, rk) -> 'normal' | 'empty' | 'one_empty' | 'missing'
+        self.sizes = {}      # (lk, rk) -> (|A|, |B|, |A & B|) for normal pairs
+        self.l_empty = 0     # left rows with a present value and no tokens
+        self.r_empty_pos = []   # positions (among present right rows) of such rows
+        self.r_present = 0
 
     def set(self, k, v, scores, kind):
         self.verdict[k] = v
@@ -184,6 +188,12 @@ def join_oracle(lrows, rrows, lkey, rkey, lattr, rattr, tokspec, measure,
                 continue
             v, scores = set_verdict(measure, A, B, threshold, op, strict)
             po.set(k, v, scores, 'normal')
+            po.sizes[k] = (len(A), len(B), len(A & B))
+    if measure != 'EDIT_DISTANCE':
+        po.l_empty = sum(1 for t in lsets if t is not None and not t)
+        present = [t for t in rsets if t is not None]
+        po.r_present = len(present)
+        po.r_empty_pos = [i for i, t in enumerate(present) if not t]
     return po
 
 
